@@ -81,6 +81,8 @@ def finding_matches(f, v, replay):
         return False
     if "where_prefixes" in m and not all(any(w.startswith(p) for p in m["where_prefixes"]) for w in v["where"]):
         return False
+    if "where_all_contain" in m and not all(m["where_all_contain"] in w for w in v["where"]):
+        return False
     if "oracles" in m and v["oracle"] not in m["oracles"]:
         return False
     if "op_kinds" in m and v.get("op_kind") not in m["op_kinds"]:
@@ -156,6 +158,27 @@ def minimise_and_confirm(prop, cand, tag, budget):
     if same_class(res.get("violation"), exp):
         return rpath, res["violation"]
     return None, {"reproduced": False, "fresh_replay": res.get("ended"), "err": res.get("harness_error")}
+
+
+def confirm_with_warmup(prop, r, tag, seed, runs, nops, workers, opts):
+    """Replay file = the earlier runs of the same worker (re-executed first, results discarded) + the recorded run."""
+    workers = max(1, min(workers, runs))
+    per = (runs + workers - 1) // workers
+    lo = (r["index"] // per) * per
+    if lo >= r["index"]:
+        return None, None
+    os.makedirs(REPLAYS, exist_ok=True)
+    rpath = os.path.join(REPLAYS, f"{tag}-after-earlier-runs.json")
+    rp = dict(r["replay"], property=prop, detail=r["violation"].get("detail"),
+              warmup={"seed": seed, "indices": [lo, r["index"]], "nops": nops, "opts": opts or {}},
+              note="this violation only shows after other models have been built in the same interpreter: the replay "
+                   "first re-executes the runs that the worker had executed before this one")
+    json.dump(rp, open(rpath, "w"), indent=1)
+    res = run_replay_file(prop, rpath, timeout=2400)
+    if same_class(res.get("violation"), rp.get("expected")):
+        return rpath, res["violation"]
+    os.remove(rpath)
+    return None, None
 
 
 def spawn_workers(prop, seed, runs, nops, workers, tier, opts=None, digests=False, base=0, group="hashseed",
@@ -315,8 +338,13 @@ def check(prop, tier, seed, runs=None, nops=None, workers=None, opts=None):
         tag = f"{prop}-s{seed}-r{r['index']}" + (f"-step{r['violation'].get('step')}" if r.get("replay") and r["violation"].get("step") is not None and "more" not in r and any(x is not r and x["index"] == r["index"] for x in violations) else "")
         path, info = minimise_and_confirm(prop, r["replay"], tag, budget)
         if path is None:
-            problems.append(f"violation in run {r['index']} ({key[0]}) did not reproduce when replayed: {info}")
-            continue
+            # the violation may depend on what the same interpreter executed before (state kept across models by
+            # the library, e.g. a class-level cache): replay the run after the runs its worker had executed before it
+            path, info2 = confirm_with_warmup(prop, r, tag, seed, R, N, W, opts)
+            if path is None:
+                problems.append(f"violation in run {r['index']} ({key[0]}) did not reproduce when replayed: {info}")
+                continue
+            info = info2
         # a minimised history may turn out to be a known finding after all
         rp = json.load(open(path))
         hit = next((f for f in findings if finding_matches(f, info, rp)), None)
